@@ -134,7 +134,9 @@ SelfOnlyCheck == (E.ev = "runReturn" /\ NoSubst(sc) /\ ~E.panic /\ ~reentered /\
                     ((~E.ok) <=> (\E h \in EagerReach(sc) : SelfOnly(sc, h)))
 
 \* C05: only an eager user post-processor is initialised, once, and before any ordinary component is created
-ProcCheck == E.ev = "procInit" => (E.n \in 1..Len(sc.procs) /\ ~sc.procs[E.n] /\ created = {})
+\*      ... and, being a created component itself, it is populated (its wire and value points) and its dependency is
+\*      initialised when its own Init runs
+ProcCheck == E.ev = "procInit" => (E.n \in 1..Len(sc.procs) /\ ~sc.procs[E.n] /\ created = {} /\ E.populated /\ E.depInited)
 Step ==
   /\ l <= Len(Trace) /\ l' = l + 1
   /\ IF E.ev = "scenario" THEN FreshP(ScOf(E.sc))
@@ -151,7 +153,10 @@ Step ==
                          ELSE IF E.ev = "get" /\ ~E.err /\ E.res # NoV /\ E.n \in inCr
                               THEN [seenRefs EXCEPT ![E.n] = @ \cup {E.res}] ELSE seenRefs
           /\ reentered' = (reentered \/ E.ev = "reentry")
-          /\ failedEver' = (failedEver \/ (E.ev = "createEnd" /\ ~E.ok) \/ (E.ev = "get" /\ E.err))
+          \* a start that RETURNS SUCCESS is a successful start whatever failed inside it (a swallowed failure does not excuse
+          \* mixed versions or repeated callbacks): only failures after that point (post-run lookups) scope the properties out
+          /\ failedEver' = IF E.ev = "runReturn" /\ E.ok THEN FALSE
+                           ELSE (failedEver \/ (E.ev = "createEnd" /\ ~E.ok) \/ (E.ev = "get" /\ E.err))
           /\ created' = IF E.ev = "createBegin" THEN created \cup {E.n} ELSE created
           /\ procOK' = (procOK /\ ProcCheck)
           /\ ranM' = IF E.ev = "run" THEN Append(ranM, E.n) ELSE ranM
@@ -201,7 +206,7 @@ M_C05_DepsFirst == depsOK
 M_C05_PopulatedBeforeInit == popOK
 M_C05_AllCallbacks == endOK
 M_C05_Lazy == lazyOK
-M_C05_LazyProcs == procOK
+M_C05_Procs == procOK
 M_C10_EngineSameOutcome == sameOK
 M_C13_Runners == runOK
 M_C09_FaultFails == faultOK
